@@ -4,7 +4,10 @@ package main
 // R-C08-MISS, R-C08-NOCONVERT, R-C08-ORDER.
 
 import (
+	"fmt"
 	"go/token"
+	"reflect"
+	"sort"
 	"strconv"
 	"strings"
 
@@ -310,6 +313,62 @@ func ruleC08Call(p *Prog, a *Anchors, r *Report, res *ssa.Function) {
 			}
 		}
 	}
+	// … and only when it is not a nil pointer/interface: boxed into an interface a nil *MyError compares unequal to nil,
+	// so a function with a concrete error type would "fail" with a nil error (whose Error() then panics)
+	if errRet {
+		for _, fn2 := range clusterOf(p, res, 2) {
+			for _, b := range fn2.Blocks {
+				for _, in := range b.Instrs {
+					ic, ok := in.(*ssa.Call)
+					if !ok || ic.Common().StaticCallee() == nil || p.extName(ic.Common().StaticCallee()) != "(reflect.Value).Interface" {
+						continue
+					}
+					// the receiver: element 1 of the results slice
+					u, isU := ic.Common().Args[0].(*ssa.UnOp)
+					if !isU {
+						continue
+					}
+					ia, isIA := u.X.(*ssa.IndexAddr)
+					if !isIA {
+						continue
+					}
+					if k, isK := constInt(ia.Index); !isK || k != 1 {
+						continue
+					}
+					recvVN := p.VN(ic.Common().Args[0])
+					g := Guarded(in, func(cnd ssa.Value, pol bool) bool {
+						cc, ok := cnd.(*ssa.Call)
+						if !ok || cc.Common().StaticCallee() == nil || pol || len(cc.Common().Args) == 0 {
+							return false
+						}
+						if p.VN(cc.Common().Args[len(cc.Common().Args)-1]) != recvVN && p.VN(cc.Common().Args[0]) != recvVN {
+							return false
+						}
+						cal := cc.Common().StaticCallee()
+						if p.extName(cal) == "(reflect.Value).IsNil" {
+							return true
+						}
+						// a package predicate that asks IsNil for the kinds that can be nil
+						if p.InPkg(cal) && cal.Blocks != nil {
+							for _, cb := range cal.Blocks {
+								for _, ci := range cb.Instrs {
+									if c2, isC := ci.(*ssa.Call); isC && c2.Common().StaticCallee() != nil && p.extName(c2.Common().StaticCallee()) == "(reflect.Value).IsNil" {
+										return true
+									}
+								}
+							}
+						}
+						return false
+					})
+					if g {
+						r.OK("resolve:Call:error-result:nil-pointer", p.InstrPos(in), "the second result is looked at as an error only when it is not a nil pointer/interface")
+					} else {
+						r.Bad("resolve:Call:error-result:nil-pointer", p.InstrPos(in), "the second result is boxed with Interface() and compared with nil without asking whether it is a nil pointer: for func f() (T, *MyError) a successful call (nil *MyError) ends the execution with a nil error, and printing that error panics")
+					}
+				}
+			}
+		}
+	}
 	if errRet {
 		r.OK("resolve:Call:error-result", p.InstrPos(call), "the second result is examined as an error")
 	} else {
@@ -486,6 +545,55 @@ func ruleC08Miss(p *Prog, a *Anchors, r *Report, res *ssa.Function) {
 	}
 	if nDisp == 0 {
 		r.Unk("resolve:empty-inside-kind-arm", p.Pos(res.Pos()), "no empty-value return inside a step branch found (the step dispatch on variablePart.typ is not recognised)")
+	}
+	// every step form knows maps: `m.key`, `m.1` and `m[k]` are three spellings of a lookup, and a form without a map
+	// arm answers "can't access … on type map" where the others find the entry (or the empty value)
+	stepArms := map[int64]map[string]bool{} // step form -> reflect kinds it has a case for
+	for _, b := range res.Blocks {
+		for _, in := range b.Instrs {
+			bo, ok := in.(*ssa.BinOp)
+			if !ok || bo.Op != token.EQL {
+				continue
+			}
+			kc, isCall := bo.X.(*ssa.Call)
+			if !isCall || kc.Common().StaticCallee() == nil || p.extName(kc.Common().StaticCallee()) != "(reflect.Value).Kind" {
+				continue
+			}
+			kind, isK := constInt(bo.Y)
+			if !isK {
+				continue
+			}
+			// which step form is this comparison in?
+			eachDominatingCond(in, func(c ssa.Value, pol bool) bool {
+				sb, ok := c.(*ssa.BinOp)
+				if !ok || sb.Op != token.EQL || !pol || !loadsField(sb.X, "variablePart", "typ") {
+					return false
+				}
+				if form, isF := constInt(sb.Y); isF {
+					if stepArms[form] == nil {
+						stepArms[form] = map[string]bool{}
+					}
+					stepArms[form][reflect.Kind(kind).String()] = true
+				}
+				return false
+			})
+		}
+	}
+	if len(stepArms) < 3 {
+		r.Unk("resolve:steps-know-maps", p.Pos(res.Pos()), "expected three step forms with kind switches, found %d", len(stepArms))
+	} else {
+		var missing []string
+		for form, kinds := range stepArms {
+			if !kinds["map"] {
+				missing = append(missing, fmt.Sprintf("form %d (knows %v)", form, keysOf(kinds)))
+			}
+		}
+		sort.Strings(missing)
+		if len(missing) == 0 {
+			r.OK("resolve:steps-know-maps", p.Pos(res.Pos()), "each of the %d step forms has a map arm", len(stepArms))
+		} else {
+			r.Bad("resolve:steps-know-maps", p.Pos(res.Pos()), "a step form has no arm for maps: %s — {{ m.1 }} on a map with number keys is an execution error although {{ m[1] }} finds the entry", strings.Join(missing, "; "))
+		}
 	}
 	// default arms of the kind switches return errors
 	nErr := 0
